@@ -49,6 +49,14 @@ class WarnProxy(types.ModuleType):
         if cat is None:
             cat = UserWarning
         name = getattr(cat, '__name__', str(cat))
+        try:
+            if name in ('StoryNotFoundWarning', 'ItemNotFoundWarning', 'DuplicateStoryWarning',
+                        'MosMergeNonStrictWarning') and 'MosRoMgrWarning' not in [c.__name__ for c in cat.__mro__]:
+                EV.COUNTS['warn-outside-hierarchy:' + name] += 1
+                if EV.WARN_STACK:
+                    EV.WARN_STACK[-1].append('!outside-hierarchy:' + name)
+        except Exception:
+            pass
         rec = (name, str(message), self.__dict__['_where'])
         EV.ALL_WARNS.append(rec)
         EV.COUNTS['warn:' + name] += 1
